@@ -16,6 +16,16 @@ package omap
 //@ pred keyOnly(t *stree.Tree[stree.KV[T, U]]) := forall a stree.KV[T, U], b stree.KV[T, U] :: {rank(t.compare, a), rank(t.compare, b)} a.Key == b.Key ==> rank(t.compare, a) == rank(t.compare, b)
 //@ pred mapInv(m Map[T, U]) := m.m != nil ==> treeInv(m.m) && sizeInv(m.m) && keyOnly(m.m)
 //@
+//@ func New
+//@   ensures [C04] inv: result.m != nil && fresh(result.m) && mapInv(result)
+//@   ensures [C04] empty: card(result.m.elems) == 0
+//@
+//@ func NewFunc
+//@   role cf ord
+//@   ensures [C04] inv: result.m != nil && fresh(result.m) && mapInv(result)
+//@   ensures [C04] empty: card(result.m.elems) == 0
+//@   at return 1: assert [C04] forall a stree.KV[T, U], b stree.KV[T, U] :: {rank(result.m.compare, a), rank(result.m.compare, b)} a.Key == b.Key ==> ord(result.m.compare, a, b) == 0
+//@
 //@ func (Map).Len
 //@   requires [C04] mapInv(m)
 //@   ensures  [C04] zero: m.m == nil ==> result == 0
